@@ -224,6 +224,7 @@ pub struct Engine {
     path_oblig_labels: Vec<String>,
     div_log: Vec<(String, u32, u32)>,
     path_implied: Vec<(String, B, Vec<B>)>,
+    stub_log: Vec<(String, u32, u32, u32, u32)>,
     implied_true: std::collections::HashSet<B>,
     // across paths
     worklist: Vec<Vec<u8>>,
@@ -280,6 +281,7 @@ impl Engine {
             path_oblig_labels: Vec::new(),
             div_log: Vec::new(),
             path_implied: Vec::new(),
+            stub_log: Vec::new(),
             implied_true: std::collections::HashSet::new(),
             worklist: Vec::new(),
             stats: Stats::default(),
@@ -1812,7 +1814,13 @@ pub fn stub_complex1(name: &str, re: Sym, im: Sym) -> Option<(Sym, Sym)> {
         }
         _ => return None,
     }
+    with(|e| { let ids = (e.id(re), e.id(im), e.id(u), e.id(v)); e.stub_log.push((name.to_string(), ids.0, ids.1, ids.2, ids.3)); });
     Some((u, v))
+}
+
+/// Stub applications made so far on this path: (name, argument re/im, result re/im).
+pub fn stub_calls() -> Vec<(String, Sym, Sym, Sym, Sym)> {
+    with(|e| e.stub_log.iter().map(|(n, a, b, c, d)| (n.clone(), Sym::from_id(*a), Sym::from_id(*b), Sym::from_id(*c), Sym::from_id(*d))).collect())
 }
 
 /// Complex power with a constant exponent: only z^(1/3) is stubbed (contract: result^3 = z).
@@ -1983,6 +1991,7 @@ pub fn explore(cfg: Config, body: &mut dyn FnMut()) -> Report {
             e.path_oblig_labels.clear();
             e.div_log.clear();
             e.path_implied.clear();
+            e.stub_log.clear();
         });
         let r = panic::catch_unwind(AssertUnwindSafe(|| body()));
         match r {
